@@ -4,7 +4,62 @@ import json, os
 HERE = os.path.dirname(os.path.dirname(os.path.abspath(__file__)))
 
 TECH = "deterministic simulation with fault injection: seeded schedule/fault search over the real strax code"
+PIPE_NOTE = ("Trusted: the simulator shims (dst/sched.py, dst/shims.py, dst/simfs.py) model threads, locks, conditions, "
+             "futures, clock and file operations faithfully; the independent numpy oracle (dst/plugins.py); harness "
+             "plugin kinds stand for real plugins. Pre-emption at synchronisation points, futures, sleeps and every "
+             "SimFS operation only. Process pools are not simulated in this check.")
 CHECKS = {
+    "C01": dict(
+        category="exploration", design_ref="DESIGN.md §5 C01",
+        text=("Seeded search over generated plugin graphs (row-wise, filter, same-kind merge, multi-output, loop, "
+              "overlap-window, down-chunking, exhaust), independent law-abiding chunkings per source (empty and "
+              "zero-duration chunks), processor / max_workers / lazy / capacity / rechunk / chunk-size swarm and "
+              "pre-stored subsets in unrelated chunkings; the whole Context.get_iter call runs for real on an "
+              "in-memory file system under a seeded thread schedule. Oracle: rows equal an independent whole-run "
+              "numpy evaluation, chunks tile the run and contain their rows, no hang / lost wake-up / exception, "
+              "and a fresh context re-reads every stored type correctly."),
+        note=PIPE_NOTE),
+    "C06": dict(
+        category="exploration", design_ref="DESIGN.md §5 C06",
+        text=("One injected failure per simulated run - plugin or pool-worker exception at a chosen row/chunk, "
+              "EIO/ENOSPC on a chosen operation of a saver, read error / corrupted read in a loader, a stalled "
+              "online source (simulated clock), or a consumer closing the iterator after k chunks - in generated "
+              "graphs under seeded schedules, so that the kill races with sends, closes, capacity and fetch-gate "
+              "waits. Oracle: the caller gets the injected exception (not a timeout, not a secondary exception, "
+              "not a normal return), all sim threads have finished when the call returns, no progress-by-timeout."),
+        note=PIPE_NOTE),
+    "C08": dict(
+        category="exploration", design_ref="DESIGN.md §5 C08",
+        text=("A recorder plugin with 1-4 dependencies of 1-3 kinds (computed from independently chunked sources "
+              "or loaded in unrelated chunkings) runs inside the simulated pipeline; invariants on the recorded "
+              "arguments of every compute call: adjacency from run start, rows inside the interval, every input "
+              "row exactly once and in order, output equal to the whole-run oracle; stream fault: one input ends "
+              "early, a default-saved plugin must raise rather than drop rows. The schedule adds the delivery "
+              "path and replayability, not oracle strength (stated in DESIGN.md)."),
+        note=PIPE_NOTE),
+    "C09": dict(
+        category="exploration", design_ref="DESIGN.md §5 C09",
+        text=("The C01 engine pinned to graphs with single- and multi-output OverlapWindowPlugins (per-row and "
+              "per-group window-local computations, windows symmetric/asymmetric/zero, many chunks shorter than "
+              "the window, rows longer than the window, empty and zero-duration chunks); whole-run oracle, "
+              "contiguity, and identical chunking of the two outputs of the multi-output plugin."),
+        note=PIPE_NOTE),
+    "C12": dict(
+        category="exploration", design_ref="DESIGN.md §5 C12",
+        text=("Fault = a Byzantine stage: one plugin of a generated graph returns, at a chosen chunk, a wrong "
+              "dtype (bare or wrapped in a Chunk), rows outside its chunk, a chunk labelled with another data "
+              "type, a gap or overlap in the target stream, or a non-dict multi-output result; both processors, "
+              "seeded schedules, SimFS storage. Oracle: the call raises, and afterwards a fresh context finds "
+              "nothing stored-as-valid that does not load to the correct rows."),
+        note=PIPE_NOTE),
+    "C13": dict(
+        category="exploration", design_ref="DESIGN.md §5 C13",
+        text=("The consumer (sim thread 0) pulls k chunks and parks; the scheduler runs the pipeline to "
+              "quiescence; Q = source chunks produced. The same seed with a run twice as long must reach the "
+              "same Q < N (relational oracle, no hand-derived bound); eager: len(mailbox) <= capacity after every "
+              "scheduler step; lazy: at every source advance a driving reader waits for a missing message; then "
+              "the consumer drains (rows must be right) or closes."),
+        note=PIPE_NOTE),
     "C05": dict(
         category="exploration", design_ref="DESIGN.md §5 C05",
         text=("Seeded search over thread schedules (random / sticky / PCT / starvation strategies) of the real "
